@@ -33,6 +33,7 @@ func init() {
 		avaMath + ".Mul":                         safemath("safemath_mul", "E_safemath_ErrOverflow"),
 		"math/bits.Mul64":                        bitsMul64,
 		"math/bits.Div64":                        bitsDiv64,
+		"math/bits.Add64":                        bitsAdd64,
 		"fmt.Errorf":                             fmtErrorf,
 	}
 }
@@ -151,4 +152,13 @@ func fmtErrorf(tr *translator, at *ast.CallExpr, args []ex) (ex, error) {
 		return ex{}, tr.errf(at, "fmt.Errorf: the first operand must be a sentinel error")
 	}
 	return ex{s: args[1].s, t: TError{}, safe: allSafe(args[1:])}, nil
+}
+
+func bitsAdd64(tr *translator, at *ast.CallExpr, args []ex) (ex, error) {
+	a, err := u64Args(tr, at, args, 3, "bits.Add64")
+	if err != nil {
+		return ex{}, err
+	}
+	u := predeclared["uint64"]
+	return ex{s: fmt.Sprintf("(bits_add64 %s %s %s)", a[0].s, a[1].s, a[2].s), t: TTuple{Elems: []Type{u, u}}, safe: allSafe(args)}, nil
 }
